@@ -66,8 +66,10 @@ func (g *skGen) stmts(budget int, cx skCtx, emit func(s *model.N, used int)) {
 	in := cx
 	in.depth++
 	// if / if-else
-	for _, mk := range g.conds(cx) {
-		mk := mk
+	for _, mk0 := range g.conds(cx) {
+		mk0 := mk0
+		// conditions are traced: how often and in which order they are evaluated is part of the trace
+		mk := func() *model.N { return model.CallN("p", model.Str("c"), mk0()) }
 		g.stmts(budget-1, in, func(t *model.N, ut int) {
 			emit(model.If(mk(), t, nil), 1+ut)
 			g.stmts(budget-1-ut, in, func(e *model.N, ue int) {
@@ -96,7 +98,7 @@ func (g *skGen) stmts(budget int, cx skCtx, emit func(s *model.N, used int)) {
 				return // never terminates: outside every domain
 			}
 			body := append([]*model.N{model.ExprS(model.Asg(iw, model.Bin("+", model.Id(iw), model.Num(1))))}, st...)
-			emit(model.Block(model.Var(iw, model.Num(0)), model.While(cw(), model.Block(body...))), 1+u)
+			emit(model.Block(model.Var(iw, model.Num(0)), model.While(model.CallN("p", model.Str("w"), cw()), model.Block(body...))), 1+u)
 		})
 	}
 	// for, with traced header clauses
@@ -237,6 +239,31 @@ func C05(c *fw.Ctx) {
 		}
 	})
 	c.Bound("skeletons", n)
+	// else-if ladders of 2-4 rungs, every combination of truth values, conditions with side effects
+	for rungs := 2; rungs <= 4; rungs++ {
+		for mask := 0; mask < 1<<rungs; mask++ {
+			for tail := 0; tail < 2; tail++ {
+				if !c.Mine() {
+					continue
+				}
+				var ladder *model.N
+				if tail == 1 {
+					ladder = model.Block(model.Print(model.Str("else-arm")))
+				}
+				for r := rungs - 1; r >= 0; r-- {
+					// the condition bumps a counter and compares: evaluated exactly once, in order
+					cond := model.Log(model.KwAnd, model.Bin(">", model.Grp(model.Asg("n", model.Bin("+", model.Id("n"), model.Num(1)))), model.Num(0)), model.Bool(mask&(1<<r) != 0))
+					ladder = model.If(model.CallN("p", model.Str(fmt.Sprintf("C%d", r)), cond), model.Block(model.Print(model.Str(fmt.Sprintf("arm%d", r)))), ladder)
+				}
+				prog := []*model.N{model.Fun("p", []string{"t", "v"}, model.Print(model.Id("t")), model.Return(model.Id("v"))), model.Var("n", model.Num(0)),
+					ladder, model.Print(model.Id("n")),
+					model.For(model.Var("i", model.Num(0)), model.Bin("<", model.Id("i"), model.Num(2)), model.Asg("i", model.Bin("+", model.Id("i"), model.Num(1))), model.Block(ladder.Clone())), model.Print(model.Id("n"))}
+				if _, _, skipped := judge(c, prog, judgeOpts{SigPrefix: "else-if-ladder"}); !skipped {
+					c.R.States++
+				}
+			}
+		}
+	}
 	// every value as the condition of every construct: bare literal, parenthesised, through a variable, negated twice
 	for _, v := range c14Values() {
 		for form := 0; form < 4; form++ {
